@@ -36,6 +36,9 @@ CHECKS = {
  "C06": dict(cat="model_checking", ref="§3 C06",
    text="80 conversation states generated from honest runs (every handshake step in both roles, rotations, data in flight, every SMP step, every step of a refresh while encrypted, finished; v2 and v3) × rejected inputs derived from genuine traffic (byte flips, truncations, extension, version/tag changes, counter/key-id/flag/next-DH substitutions with the MAC left alone, replays of the whole history, messages of the previous session, reflected messages, garbage). Differential oracle without hand-written expectations: the exact state hash is unchanged, or else seven genuine continuations (pending traffic, text both ways, SMP both ways, peer query now / after the ignore window / before pending traffic, End) produce identical observable transcripts on clones with and without the rejected input.",
    tech="exhaustive enumeration of (state, rejected input) pairs on the implementation with an exact-state / differential-continuation oracle"),
+ "C02": dict(cat="model_checking", ref="§3 C02",
+   text="Session states at several ratchet positions and in a second session (v2, v3) × every kind of data message in flight × single deviations: every raw byte position × three xor masks, every truncation length, extensions inside and after the authenticated part, base64-level substitutions, and field substitutions (key ids, counter, next DH, flag, ciphertext) with the MAC left alone and recomputed under every MAC key disclosed on the wire so far and unrelated keys — each delivered to a clone of the receiver and judged by a reference verdict (authentic ⇔ header, authenticated body and MAC byte-identical): non-authentic ⇒ no plaintext, no reply, no TLV effect, states unchanged; authentic ⇒ delivered exactly.",
+   tech="exhaustive enumeration of single-deviation forgeries per (state, message) executed on cloned receivers"),
 }
 NA_REASON = "check not built yet (work in progress; see DESIGN.md §3 for the planned bounded exploration)"
 def main():
